@@ -113,3 +113,6 @@ func writeShards(dir, prelude, typ string, items []string, defs string, per int)
 	}
 	return writeJSON(filepath.Join(dir, "shards.json"), map[string]int{"per": per, "total": len(items)})
 }
+
+func f32bits(f float32) uint32     { return mathFloat32bits(f) }
+func f32frombits(b uint32) float32 { return mathFloat32frombits(b) }
